@@ -172,8 +172,10 @@ def gen_cases(seed, tier, insts):
         c = SCase(inst, ext, st, sl, 'boundary'); c.ops = ['info'] + (['alias'] if size <= 64 else []); cases.append(c)
     # views of views: a second submdspan (strided slices) applied to the result of the first
     run_time = [i for i in insts if all(k in 'irfst' for k in i[3]) and len(i[3]) >= 1 and i[0] != 'ushift']
-    for _ in range(700 if not thorough else 6000):
-        inst = rnd.choice(run_time); kind, t, pat, ks = inst; H = C.hi(t)
+    # first levels whose result has a COMPILE-TIME empty or unit-stride extent (strided_slice with constant extent 0 / constant stride 1)
+    ct_first = [i for i in insts if any(k in 'ZU' for k in i[3]) and all(k in 'irfstZU' for k in i[3]) and i[0] != 'ushift']
+    for n_ in range(700 if not thorough else 6000):
+        inst = rnd.choice(ct_first if (ct_first and n_ % 5 == 0) else run_time); kind, t, pat, ks = inst; H = C.hi(t)
         ext = [p if p is not None else rnd.choice([0, 1, 2, 3, 4, 5, 6, 7]) for p in pat]
         per = [slice_values(k, e) for k, e in zip(ks, ext)]
         if any(len(p) == 0 for p in per): continue
